@@ -209,7 +209,7 @@ func genC13(g *gen) {
 		for i := 0; i < nOps; i++ {
 			s := pool[g.r.IntN(len(pool))]
 			op := g.callOp(m, s, 0, 0.2)
-			for _, p := range op.Plans {
+			for _, p := range plansInOrder(op.Plans) {
 				if s.Kind == "cstream" {
 					p.StreamK = g.r.IntN(3)
 				}
